@@ -28,16 +28,10 @@ func TestMain(m *testing.M) { vk.Main(m) }
 // the cases of that class are then generated and asserted like all others. An open entry of
 // known_findings.json that lists the class name has the same effect (r.OpenClass).
 var knownOpen = map[string]bool{
-	// AF-15: parser messages "could not parse ... as integer/float" carry no "line N:" prefix
-	"parse-number-literal-message": true,
-	// AF-14: compiler.curStmt is never reset: a top-level runtime error raised after any block body has been
-	// executed reports the line of the last statement of that block
-	"runtime-error-after-block": true,
-	// AF-14, second shape: the stale curStmt left by a function body called earlier in the SAME statement
-	"runtime-error-after-call-in-same-statement": true,
-	// AF-16: tokens are stamped after the lexer advanced past them: an error keyed to the closing %> of a tag
-	// that is immediately followed by a newline reports the next line
-	"error-keyed-to-last-token-before-newline": true,
+	// (empty: AF-14, AF-15 and AF-16 were fixed in /repo; their classes
+	// "parse-number-literal-message", "runtime-error-after-block",
+	// "runtime-error-after-call-in-same-statement" and
+	// "error-keyed-to-last-token-before-newline" are generated and asserted like all others)
 }
 
 // C15_NOEXCLUDE=1 ignores the table for one run (shows what the excluded classes still do on the current tree).
